@@ -340,7 +340,7 @@ class Base(_BaseClass):
                 bracket += 1
             elif '{' == val:
                 brace += 1
-            elif '(' == val:
+            elif '(' == val or Base._prods.FUNCTION == starttoken[0]:
                 parant += 1
 
         if tokenizer:
